@@ -10,7 +10,7 @@
    Result: the new run returns exactly the old schedule with its entries permuted (perm_vec p out), i.e. the same
    map station -> pilot; an error is the same error. *)
 From Coq Require Import ZArith QArith Qminmax Qabs List Bool String Lia Lqa Permutation Sorting.Sorted Setoid Morphisms.
-From ACN Require Import Base.Num Base.ListX Gen.Sorted_Q Gen.SortedZ_Z Model.Preproc Model.Sorted Proofs.Sorted.
+From ACN Require Import Base.Num Base.ListX Gen.Sorted_Q Gen.SortedZ_Z Model.EVSE Model.Preproc Model.Sorted Proofs.Sorted Proofs.Preproc.
 Import ListNotations.
 Open Scope list_scope.
 Open Scope Q_scope.
@@ -244,6 +244,166 @@ Proof.
 Qed.
 
 (* ============================================================================================
+   3b. the total number of round-robin levels does not depend on the station order
+   ============================================================================================ *)
+Lemma skipn_nth_cons {A} (u : list A) k d : (k < List.length u)%nat -> skipn k u = nth k u d :: skipn (S k) u.
+Proof.
+  revert k; induction u as [|a u IH]; intros k L; simpl in L; [lia|].
+  destruct k; [reflexivity|]. cbn [skipn nth]. apply IH. lia.
+Qed.
+
+Lemma sum_lengths_perm_vec {A} (p : list nat) n (t : list (list A)) :
+  is_perm p n -> List.length t = n ->
+  fold_right (fun l m => (List.length l + m)%nat) O (perm_vec [] p t)
+  = fold_right (fun l m => (List.length l + m)%nat) O t.
+Proof.
+  intros P L.
+  assert (S1 : forall q, fold_right (fun l m => (List.length l + m)%nat) O (perm_vec [] q t)
+                         = fold_right (fun j m => (List.length (nth j t []) + m)%nat) O q).
+  { induction q as [|j q IH]; simpl; auto. }
+  assert (S2 : forall q q', Permutation q q' ->
+               fold_right (fun j m => (List.length (nth j t []) + m)%nat) O q
+               = fold_right (fun j m => (List.length (nth j t []) + m)%nat) O q').
+  { induction 1; simpl; lia. }
+  rewrite S1, (S2 _ _ P). subst n. clear.
+  assert (G : forall (u : list (list A)) k,
+            fold_right (fun j m => (List.length (nth j u []) + m)%nat) O (seq k (List.length u - k) )
+            = fold_right (fun l m => (List.length l + m)%nat) O (skipn k u)).
+  { intros u k. remember (List.length u - k)%nat as d. revert k Heqd.
+    induction d as [|d IH]; intros k Hd.
+    - simpl. rewrite skipn_all2 by lia. reflexivity.
+    - cbn [seq fold_right]. rewrite (IH (S k)) by lia.
+      assert (Lk : (k < List.length u)%nat) by lia.
+      rewrite (skipn_nth_cons u k [] Lk). reflexivity. }
+  specialize (G t O). rewrite Nat.sub_0_r in G. exact G.
+Qed.
+
+(* ============================================================================================
+   3c. run_preprocessing and the presentation order of the sessions (one infrastructure)
+   ============================================================================================ *)
+Lemma filter_perm {A} (g : A -> bool) l l' : Permutation l l' -> Permutation (filter g l) (filter g l').
+Proof.
+  induction 1; simpl; auto.
+  - destruct (g x); auto.
+  - destruct (g x), (g y); auto. apply perm_swap.
+  - eapply perm_trans; eauto.
+Qed.
+
+Lemma apply_bound_ident st s : ident (apply_bound st s) = ident s /\ True.
+Proof. split; auto. unfold apply_bound. destruct (zassoc (s_id s) st); reflexivity. Qed.
+
+Section PreprocPerm.
+  Variable feasible : list Q -> bool.
+  Variable inf : infra.
+  Variable period : Q.
+
+  (* the estimator only reads and writes the entry of the session it is asked about *)
+  Definition ramp_val (rp : ramp) (cur : option Q) (s : session) : Q :=
+    let mp := nthQ (i_maxp inf) (s_station s) in
+    let c := match cur with Some u => u | None => mp end in
+    match zassoc (s_id s) (r_prev_pilot rp) with
+    | None => c
+    | Some pp => ramp_update rp mp pp (match zassoc (s_id s) (r_prev_rate rp) with Some x => x | None => 0 end) c
+    end.
+
+  Lemma ramp_one_zassoc rp st s k :
+    zassoc k (ramp_one inf rp st s)
+    = if Z.eqb k (s_id s) then Some (ramp_val rp (zassoc (s_id s) st) s) else zassoc k st.
+  Proof.
+    unfold ramp_one, ramp_val.
+    set (mp := nthQ (i_maxp inf) (s_station s)).
+    destruct (zassoc (s_id s) st) as [u|] eqn:E0.
+    - destruct (zassoc (s_id s) (r_prev_pilot rp)) as [pp|].
+      + rewrite zassoc_set_spec, E0. reflexivity.
+      + destruct (Z.eqb k (s_id s)) eqn:Ek; auto. apply Z.eqb_eq in Ek. now subst k.
+    - assert (E1 : zassoc (s_id s) (zassoc_set (s_id s) mp st) = Some mp) by (rewrite zassoc_set_spec, Z.eqb_refl; reflexivity).
+      destruct (zassoc (s_id s) (r_prev_pilot rp)) as [pp|].
+      + rewrite zassoc_set_spec, E1. destruct (Z.eqb k (s_id s)) eqn:Ek; auto.
+        rewrite zassoc_set_spec, Ek. reflexivity.
+      + rewrite zassoc_set_spec. reflexivity.
+  Qed.
+
+  Definition store_eq (a b : list (Z * Q)) : Prop := forall k, zassoc k a = zassoc k b.
+
+  Lemma ramp_fold_cong rp l : forall a b, store_eq a b ->
+    store_eq (fold_left (ramp_one inf rp) l a) (fold_left (ramp_one inf rp) l b).
+  Proof.
+    induction l as [|s l IH]; intros a b E; [exact E|]. cbn [fold_left]. apply IH.
+    intro k. rewrite !ramp_one_zassoc, (E (s_id s)), (E k). reflexivity.
+  Qed.
+
+  Lemma rampdown_perm rp l1 l2 : Permutation l1 l2 -> NoDup (map s_id l1) ->
+    forall st, store_eq (fold_left (ramp_one inf rp) l1 st) (fold_left (ramp_one inf rp) l2 st).
+  Proof.
+    induction 1 as [|x l l' Pm IH|x y l|l l' l'' P1 IH1 P2 IH2]; intros ND st.
+    - intro k. reflexivity.
+    - cbn [fold_left]. apply IH. now inversion ND.
+    - cbn [fold_left]. apply ramp_fold_cong. intro k. rewrite !ramp_one_zassoc.
+      assert (Ne : s_id y <> s_id x).
+      { inversion ND as [|? ? Hn _]; subst. intro E. apply Hn. left. now symmetry. }
+      destruct (Z.eqb k (s_id x)) eqn:Ex, (Z.eqb k (s_id y)) eqn:Ey; auto.
+      + apply Z.eqb_eq in Ex. apply Z.eqb_eq in Ey. congruence.
+      + rewrite (proj2 (Z.eqb_neq (s_id x) (s_id y))) by congruence. reflexivity.
+      + rewrite (proj2 (Z.eqb_neq (s_id y) (s_id x))) by congruence. reflexivity.
+    - intro k. rewrite (IH1 ND st k). apply IH2.
+      eapply Permutation_NoDup; [apply Permutation_map; exact P1|exact ND].
+  Qed.
+
+  Lemma ids_filter_map g l : map s_id (enforce_pilot_limit inf (filter g l)) = map s_id (filter g l).
+  Proof. unfold enforce_pilot_limit. rewrite map_map. reflexivity. Qed.
+
+  Lemma pre_store_perm est ss1 ss2 : Permutation ss1 ss2 -> NoDup (map s_id ss1) ->
+    store_eq (pre_store inf period est ss1) (pre_store inf period est ss2).
+  Proof.
+    intros Pm ND. unfold pre_store. destruct est as [rp|]; [|intro k; reflexivity].
+    unfold rampdown. apply rampdown_perm.
+    - unfold enforce_pilot_limit. apply Permutation_map. unfold remove_finished_sessions. now apply filter_perm.
+    - unfold remove_finished_sessions. rewrite ids_filter_map. now apply NoDup_map_filter.
+  Qed.
+
+  Lemma apply_bound_ext a b s : zassoc (s_id s) a = zassoc (s_id s) b -> apply_bound a s = apply_bound b s.
+  Proof. intro E. unfold apply_bound. now rewrite E. Qed.
+
+  Lemma pre_stage3_perm est ss1 ss2 s : Permutation ss1 ss2 -> NoDup (map s_id ss1) ->
+    pre_stage3 inf period est ss1 s = pre_stage3 inf period est ss2 s.
+  Proof.
+    intros Pm ND. unfold pre_stage3. destruct est; auto. apply apply_bound_ext.
+    apply (pre_store_perm _ _ _ Pm ND).
+  Qed.
+
+  (* the preprocessed list does not depend on the presentation order (up to order when no minimum rates are
+     applied, exactly when they are: apply_minimum_charging_rate sorts by remaining time) *)
+  Theorem run_preprocessing_perm est unint ss1 ss2 :
+    Permutation ss1 ss2 -> NoDup (map s_id ss1) ->
+    (unint = true -> forall a b, In a ss1 -> In b ss1 -> remaining_time a = remaining_time b -> a = b) ->
+    Permutation (fst (run_preprocessing feasible inf period est unint ss1))
+                (fst (run_preprocessing feasible inf period est unint ss2))
+    /\ store_eq (snd (run_preprocessing feasible inf period est unint ss1))
+                (snd (run_preprocessing feasible inf period est unint ss2)).
+  Proof.
+    intros Pm ND Drt. split; [|rewrite !run_preprocessing_store; now apply pre_store_perm].
+    rewrite !run_preprocessing_fst. cbv zeta.
+    set (r1 := remove_finished_sessions inf period ss1). set (r2 := remove_finished_sessions inf period ss2).
+    assert (Pr : Permutation r1 r2) by (unfold r1, r2, remove_finished_sessions; now apply filter_perm).
+    assert (P3 : Permutation (map (pre_stage3 inf period est ss1) r1) (map (pre_stage3 inf period est ss2) r2)).
+    { rewrite (map_ext _ _ (fun s => pre_stage3_perm est ss1 ss2 s Pm ND)). now apply Permutation_map. }
+    destruct unint; [|exact P3].
+    unfold apply_minimum_charging_rate.
+    rewrite (sort_by_perm_invariant _ false _ _ P3); [apply Permutation_refl|].
+    intros a b Ia Ib E. apply in_map_iff in Ia. apply in_map_iff in Ib.
+    destruct Ia as [a0 [<- Ia0]]. destruct Ib as [b0 [<- Ib0]].
+    assert (Ra : forall x, remaining_time (pre_stage3 inf period est ss1 x) = remaining_time x).
+    { intro x. pose proof (pre_stage3_ident inf period est ss1 x) as I. unfold ident in I.
+      injection I as _ _ _ _ H5 H6 _ H8. unfold remaining_time. now rewrite H5, H6, H8. }
+    rewrite !Ra in E. apply Qeq_eq_bool in E. 
+    assert (E' : remaining_time a0 = remaining_time b0).
+    { apply Qeq_bool_iff in E. unfold Qeq in E. cbn in E. lia. }
+    unfold r1, remove_finished_sessions in Ia0, Ib0. apply filter_In in Ia0. apply filter_In in Ib0.
+    now rewrite (Drt eq_refl a0 b0 (proj1 Ia0) (proj1 Ib0) E').
+  Qed.
+End PreprocPerm.
+
+(* ============================================================================================
    4. the algorithm on the permuted data
    ============================================================================================ *)
 Section Equivariance.
@@ -390,6 +550,332 @@ Section Equivariance.
     destruct (feasible (init_sched inf g_init_lb q)); cbn [negb]; [|reflexivity].
     now apply greedy_loop_relabel.
   Qed.
+  (* ---------------------------------------------------------------------------------------
+     round robin
+     --------------------------------------------------------------------------------------- *)
+  Lemma rr_levels_relabel inc s base : st_ok s ->
+    rr_levels_of inf' period inc base (relabel p s) = rr_levels_of inf period inc base s.
+  Proof.
+    intro H. unfold rr_levels_of, rr_ub, rr_lb.
+    fold (rap inf' period (relabel p s)). fold (rap inf period s).
+    rewrite lookup_cont, rap_relabel by exact H.
+    change (nthQ (i_maxp inf') (s_station (relabel p s))) with (nthQ (i_maxp inf') (s_station (relabel p s))).
+    rewrite lookup_maxp by exact H. reflexivity.
+  Qed.
+
+  Lemma rr_init_step_relabel inc levels sched s :
+    st_ok s -> List.length levels = N -> List.length sched = N ->
+    rr_init_step inf' period inc (perm_vec [] p levels, perm_vec 0 p sched) (relabel p s)
+    = (perm_vec [] p (fst (rr_init_step inf period inc (levels, sched) s)),
+       perm_vec 0 p (snd (rr_init_step inf period inc (levels, sched) s))).
+  Proof.
+    intros H Ll Ls. unfold rr_init_step. cbn [fst snd].
+    assert (Ip := in_p s H). assert (ND := is_perm_NoDup p N P).
+    change (s_station (relabel p s)) with (pos p (s_station s)).
+    rewrite (nth_perm_vec_pos [] p levels _ Ip).
+    change (pos p (s_station s)) with (s_station (relabel p s)) at 1.
+    rewrite rr_levels_relabel by exact H.
+    cbn [relabel s_station].
+    rewrite <- !perm_vec_upd; auto; [rewrite Ls|rewrite Ll]; exact H.
+  Qed.
+
+  Lemma rr_init_lengths inc q : forall levels sched,
+    List.length (fst (fold_left (rr_init_step inf period inc) q (levels, sched))) = List.length levels
+    /\ List.length (snd (fold_left (rr_init_step inf period inc) q (levels, sched))) = List.length sched.
+  Proof.
+    induction q as [|s q IH]; intros levels sched; [auto|]. cbn [fold_left].
+    unfold rr_init_step at 2. destruct (IH (upd (s_station s) (rr_levels_of inf period inc (nth (s_station s) levels []) s) levels)
+        (upd (s_station s) match rr_levels_of inf period inc (nth (s_station s) levels []) s with [] => 0 | a :: _ => a end sched)) as [A B].
+    now rewrite !upd_length in *.
+  Qed.
+
+  Lemma rr_init_relabel inc q : forall levels sched,
+    (forall s, In s q -> st_ok s) -> List.length levels = N -> List.length sched = N ->
+    fold_left (rr_init_step inf' period inc) (map (relabel p) q) (perm_vec [] p levels, perm_vec 0 p sched)
+    = (perm_vec [] p (fst (fold_left (rr_init_step inf period inc) q (levels, sched))),
+       perm_vec 0 p (snd (fold_left (rr_init_step inf period inc) q (levels, sched)))).
+  Proof.
+    induction q as [|s q IH]; intros levels sched Hq Ll Ls; [reflexivity|]. cbn [map fold_left].
+    rewrite rr_init_step_relabel; auto; [|apply Hq; now left].
+    destruct (rr_init_step inf period inc (levels, sched) s) as [l1 s1] eqn:E. cbn [fst snd].
+    assert (L1 : List.length l1 = N /\ List.length s1 = N).
+    { unfold rr_init_step in E. injection E as <- <-. now rewrite !upd_length. }
+    apply IH; [intros x Ix; apply Hq; now right|tauto|tauto].
+  Qed.
+
+  Lemma rr_loop_relabel : forall fuel q sched ridx levels log log',
+    (forall s, In s q -> st_ok s) ->
+    List.length sched = N -> List.length ridx = N -> List.length levels = N ->
+    option_map fst (rr_loop feasible' fuel (map (relabel p) q) (perm_vec 0 p sched) (perm_vec O p ridx)
+                            (perm_vec [] p levels) log')
+    = option_map (fun r => perm_vec 0 p (fst r)) (rr_loop feasible fuel q sched ridx levels log).
+  Proof.
+    induction fuel as [|f IH]; intros q sched ridx levels log log' Hq Ls Lr Ll; [reflexivity|].
+    destruct q as [|s q]; [reflexivity|]. cbn [map rr_loop].
+    assert (Hs : st_ok s) by (apply Hq; now left).
+    assert (Ip := in_p s Hs). assert (ND := is_perm_NoDup p N P).
+    change (s_station (relabel p s)) with (pos p (s_station s)).
+    rewrite (nth_perm_vec_pos [] p levels _ Ip), (nth_perm_vec_pos O p ridx _ Ip).
+    set (i := s_station s). set (lv := nth i levels []). set (k := nth i ridx O).
+    assert (Hq' : forall x, In x q -> st_ok x) by (intros x Ix; apply Hq; now right).
+    destruct (RR_can_raise (Z.of_nat k) 0%Z 0%Z (Z.of_nat (List.length lv))).
+    - rewrite <- (perm_vec_upd 0 p sched i) by (auto; rewrite Ls; exact Hs).
+      rewrite Feq by now rewrite upd_length.
+      destruct (feasible (upd i (nth (S k) lv 0) sched)).
+      + rewrite <- (perm_vec_upd O p ridx i) by (auto; rewrite Lr; exact Hs).
+        replace (map (relabel p) q ++ [relabel p s]) with (map (relabel p) (q ++ [s])) by (rewrite map_app; reflexivity).
+        apply IH; rewrite ?upd_length; auto.
+        intros x Ix. apply in_app_or in Ix. destruct Ix as [Ix|[<-|[]]]; auto.
+      + rewrite <- (perm_vec_upd 0 p (upd i (nth (S k) lv 0) sched) i) by (auto; rewrite upd_length, Ls; exact Hs).
+        apply IH; rewrite ?upd_length; auto.
+    - apply IH; auto.
+  Qed.
+
+  Theorem round_robin_equivariant inc k ss ss' :
+    List.length (i_allow inf) = N ->
+    (forall s, In s ss -> st_ok s) ->
+    Permutation ss' (map (relabel p) ss) ->
+    (forall a b, In a ss -> In b ss ->
+       sort_key inf period now k a == sort_key inf period now k b -> a = b) ->
+    round_robin feasible' inf' period now inc k ss'
+    = res_map (perm_vec 0 p) (round_robin feasible inf period now inc k ss).
+  Proof.
+    intros IL Hss Pss D. unfold round_robin, round_robin_full.
+    assert (D' : forall a b, In a ss' -> In b ss' ->
+                 sort_key inf' period now k a == sort_key inf' period now k b -> a = b).
+    { intros a b Ia Ib E.
+      apply (Permutation_in _ Pss) in Ia. apply (Permutation_in _ Pss) in Ib.
+      apply in_map_iff in Ia. apply in_map_iff in Ib.
+      destruct Ia as [a0 [<- Ia0]]. destruct Ib as [b0 [<- Ib0]].
+      rewrite !sort_key_relabel in E by (now apply Hss). now rewrite (D a0 b0 Ia0 Ib0 E). }
+    assert (Esort : sort_sessions inf' period now k ss' = map (relabel p) (sort_sessions inf period now k ss)).
+    { unfold sort_sessions.
+      rewrite (sort_by_perm_invariant _ _ ss' (map (relabel p) ss) Pss D').
+      apply sort_by_map. intros a Ia. apply sort_key_relabel. now apply Hss. }
+    rewrite Esort.
+    set (q := sort_sessions inf period now k ss).
+    assert (Hq : forall s, In s q -> st_ok s).
+    { intros s I. apply Hss. eapply Permutation_in; [apply sort_by_perm|exact I]. }
+    unfold rr_init. rewrite n_stations', (ip_allow _ _ _ IP).
+    rewrite <- (is_perm_length p N P) at 1. rewrite <- (perm_vec_repeat 0 p N).
+    rewrite rr_init_relabel; auto; [|apply repeat_length].
+    destruct (rr_init_lengths inc q (i_allow inf) (repeat 0 N)) as [Ll Lsch].
+    rewrite IL in Ll. rewrite repeat_length in Lsch.
+    destruct (fold_left (rr_init_step inf period inc) q (i_allow inf, repeat 0 N)) as [levels s0] eqn:RI.
+    cbn [fst snd] in *.
+    rewrite (Feq s0 Lsch).
+    destruct (feasible s0); cbn [negb]; [|reflexivity].
+    assert (Ef : rr_fuel (map (relabel p) q) (perm_vec [] p levels) = rr_fuel q levels).
+    { unfold rr_fuel. rewrite map_length, (sum_lengths_perm_vec p N levels P Ll). reflexivity. }
+    rewrite Ef.
+    assert (R0 : repeat O N = perm_vec O p (repeat O N)).
+    { rewrite perm_vec_repeat, (is_perm_length p N P). reflexivity. }
+    rewrite R0 at 1.
+    pose proof (rr_loop_relabel (rr_fuel q levels) q s0 (repeat O N) levels [] [] Hq Lsch (repeat_length _ _) Ll) as H.
+    destruct (rr_loop feasible' _ _ _ _ _ _) as [[o' l']|];
+      destruct (rr_loop feasible _ _ _ _ _ _) as [[o l]|]; cbn in H; try discriminate; [|reflexivity].
+    injection H as ->. reflexivity.
+  Qed.
+  (* ---------------------------------------------------------------------------------------
+     run_preprocessing on the permuted infrastructure (same presentation order)
+     --------------------------------------------------------------------------------------- *)
+  Lemma lookup_minp s : st_ok s -> nthQ (i_minp inf') (s_station (relabel p s)) = nthQ (i_minp inf) (s_station s).
+  Proof. intro H. unfold nthQ. rewrite (ip_minp _ _ _ IP). apply nth_perm_vec_pos. now apply in_p. Qed.
+
+  Lemma filter_map_relabel (g' g : session -> bool) l :
+    (forall s, In s l -> g' (relabel p s) = g s) -> filter g' (map (relabel p) l) = map (relabel p) (filter g l).
+  Proof.
+    induction l as [|s l IH]; intro H; [reflexivity|]. cbn [map filter].
+    rewrite (H s (or_introl eq_refl)), IH by (intros x Ix; apply H; now right).
+    destruct (g s); reflexivity.
+  Qed.
+
+  Lemma remove_finished_relabel l : (forall s, In s l -> st_ok s) ->
+    remove_finished_sessions inf' period (map (relabel p) l) = map (relabel p) (remove_finished_sessions inf period l).
+  Proof.
+    intro H. unfold remove_finished_sessions. apply filter_map_relabel. intros s Is.
+    rewrite lookup_minp, lookup_volt by (now apply H). reflexivity.
+  Qed.
+
+  Lemma enforce_relabel l : (forall s, In s l -> st_ok s) ->
+    enforce_pilot_limit inf' (map (relabel p) l) = map (relabel p) (enforce_pilot_limit inf l).
+  Proof.
+    intro H. unfold enforce_pilot_limit. rewrite !map_map. apply map_ext_in. intros s Is.
+    rewrite lookup_maxp by (now apply H). reflexivity.
+  Qed.
+
+  Lemma rampdown_relabel rp l : (forall s, In s l -> st_ok s) ->
+    rampdown inf' rp (map (relabel p) l) = rampdown inf rp l.
+  Proof.
+    unfold rampdown. generalize (r_store rp). induction l as [|s l IH]; intros st H; [reflexivity|].
+    cbn [map fold_left].
+    assert (E : ramp_one inf' rp st (relabel p s) = ramp_one inf rp st s).
+    { unfold ramp_one. rewrite lookup_maxp by (apply H; now left). reflexivity. }
+    rewrite E. apply IH. intros x Ix. apply H. now right.
+  Qed.
+
+  Lemma apply_bound_relabel st s : apply_bound st (relabel p s) = relabel p (apply_bound st s).
+  Proof. unfold apply_bound. cbn [relabel s_id]. destruct (zassoc (s_id s) st); reflexivity. Qed.
+
+  Lemma min_rate_loop_relabel : forall q rates,
+    (forall s, In s q -> st_ok s) -> List.length rates = N ->
+    min_rate_loop feasible' inf' period (map (relabel p) q) (perm_vec 0 p rates)
+    = (map (relabel p) (fst (min_rate_loop feasible inf period q rates)),
+       perm_vec 0 p (snd (min_rate_loop feasible inf period q rates))).
+  Proof.
+    induction q as [|s q IH]; intros rates Hq L; [reflexivity|]. cbn [map min_rate_loop].
+    assert (Hs : st_ok s) by (apply Hq; now left).
+    assert (Ip := in_p s Hs). assert (ND := is_perm_NoDup p N P).
+    rewrite lookup_minp by exact Hs.
+    assert (Er : rap_utils inf' period (relabel p s) = rap_utils inf period s).
+    { unfold rap_utils. rewrite lookup_volt by exact Hs. reflexivity. }
+    rewrite Er. set (r := nthQ (i_minp inf) (s_station s)).
+    cbn [relabel s_station].
+    rewrite <- (perm_vec_upd 0 p rates (s_station s) r) by (auto; rewrite L; exact Hs).
+    rewrite Feq by now rewrite upd_length.
+    assert (Hq' : forall x, In x q -> st_ok x) by (intros x Ix; apply Hq; now right).
+    destruct (Pre_min_ok r 0 0 period 0 (feasible (upd (s_station s) r rates)) (rap_utils inf period s)).
+    - rewrite IH by (auto; now rewrite upd_length).
+      destruct (min_rate_loop feasible inf period q (upd (s_station s) r rates)) as [o f]. reflexivity.
+    - rewrite <- (perm_vec_upd 0 p (upd (s_station s) r rates) (s_station s) 0) by (auto; rewrite upd_length, L; exact Hs).
+      rewrite IH by (auto; now rewrite !upd_length).
+      destruct (min_rate_loop feasible inf period q (upd (s_station s) 0 (upd (s_station s) r rates))) as [o f]. reflexivity.
+  Qed.
+
+  Lemma apply_minimum_relabel l : (forall s, In s l -> st_ok s) ->
+    apply_minimum_charging_rate feasible' inf' period (map (relabel p) l)
+    = map (relabel p) (apply_minimum_charging_rate feasible inf period l).
+  Proof.
+    intro H. unfold apply_minimum_charging_rate.
+    rewrite (sort_by_map (relabel p) (fun s => inject_Z (remaining_time s)) (fun s => inject_Z (remaining_time s)) false l)
+      by reflexivity.
+    rewrite n_stations'. rewrite <- (is_perm_length p N P) at 1. rewrite <- (perm_vec_repeat 0 p N).
+    rewrite min_rate_loop_relabel; [reflexivity| |apply repeat_length].
+    intros s I. apply H. eapply Permutation_in; [apply sort_by_perm|exact I].
+  Qed.
+
+  Theorem run_preprocessing_relabel est unint ss : (forall s, In s ss -> st_ok s) ->
+    run_preprocessing feasible' inf' period est unint (map (relabel p) ss)
+    = (map (relabel p) (fst (run_preprocessing feasible inf period est unint ss)),
+       snd (run_preprocessing feasible inf period est unint ss)).
+  Proof.
+    intro H. unfold run_preprocessing.
+    rewrite remove_finished_relabel by exact H.
+    set (r1 := remove_finished_sessions inf period ss).
+    assert (H1 : forall s, In s r1 -> st_ok s).
+    { intros s I. unfold r1, remove_finished_sessions in I. apply filter_In in I. now apply H. }
+    rewrite enforce_relabel by exact H1.
+    set (r2 := enforce_pilot_limit inf r1).
+    assert (H2 : forall s, In s r2 -> st_ok s).
+    { intros s I. unfold r2, enforce_pilot_limit in I. apply in_map_iff in I. destruct I as [x [<- Ix]].
+      unfold st_ok. cbn [s_station set_max]. now apply H1. }
+    destruct est as [rp|].
+    - rewrite rampdown_relabel by exact H2.
+      unfold apply_upper_bound_estimate. rewrite map_map.
+      rewrite (map_ext _ _ (apply_bound_relabel (rampdown inf rp r2))), <- map_map.
+      set (r3 := map (apply_bound (rampdown inf rp r2)) r2).
+      assert (H3 : forall s, In s r3 -> st_ok s).
+      { intros s I. unfold r3 in I. apply in_map_iff in I. destruct I as [x [<- Ix]].
+        unfold st_ok. rewrite (ident_station _ _ (proj1 (apply_bound_ident _ x))). now apply H2. }
+      destruct unint; cbn [fst snd]; [rewrite apply_minimum_relabel by exact H3|]; reflexivity.
+    - destruct unint; cbn [fst snd]; [rewrite apply_minimum_relabel by exact H2|]; reflexivity.
+  Qed.
+  (* ---------------------------------------------------------------------------------------
+     the whole schedule(): preprocessing + algorithm + format_array_schedule
+     --------------------------------------------------------------------------------------- *)
+  Lemma rr_loop_length : forall fuel q sched ridx levels log o l,
+    rr_loop feasible fuel q sched ridx levels log = Some (o, l) -> List.length o = List.length sched.
+  Proof.
+    induction fuel as [|f IH]; intros q sched ridx levels log o l H; [discriminate|]. cbn [rr_loop] in H.
+    destruct q as [|s q]; [now injection H as <- _|].
+    destruct (RR_can_raise _ _ _ _).
+    - destruct (feasible _); apply IH in H; now rewrite ?upd_length in H.
+    - now apply IH in H.
+  Qed.
+
+  Lemma round_robin_length inc k ss out :
+    round_robin feasible inf period now inc k ss = Ok out -> List.length out = N.
+  Proof.
+    unfold round_robin, round_robin_full, rr_init. intro H.
+    destruct (rr_init_lengths inc (sort_sessions inf period now k ss) (i_allow inf) (repeat 0 N)) as [_ L].
+    destruct (fold_left _ _ _) as [levels s0]. cbn [snd] in L. rewrite repeat_length in L.
+    destruct (negb (feasible s0)); [discriminate|].
+    destruct (rr_loop _ _ _ _ _ _ _) as [[o l]|] eqn:R; [|discriminate].
+    cbn in H. injection H as <-. apply rr_loop_length in R. congruence.
+  Qed.
+
+  Lemma sorting_algorithm_length k ss out :
+    sorting_algorithm feasible inf period now k ss = Ok out -> List.length out = N.
+  Proof.
+    unfold sorting_algorithm. intro H. destruct (negb _); [discriminate|].
+    apply greedy_loop_length in H. rewrite H. unfold init_sched. now rewrite fold_upd_length, repeat_length.
+  Qed.
+
+  Lemma sort_key_ident k a b : ident a = ident b -> sort_key inf period now k a = sort_key inf period now k b.
+  Proof.
+    intro E. pose proof (ident_rap inf period a b E) as R. unfold ident in E.
+    injection E as E1 _ _ _ E5 _ E7 _.
+    unfold sort_key, max_pilot_signal. fold (rap inf period a). fold (rap inf period b).
+    now rewrite R, E1, E5, E7.
+  Qed.
+
+  Theorem schedule_equivariant cfg ss ss' :
+    c_period cfg = period -> c_now cfg = now ->
+    List.length (i_allow inf) = N ->
+    (forall s, In s ss -> st_ok s) ->
+    Permutation ss' (map (relabel p) ss) ->
+    NoDup (map s_id ss) ->
+    (forall a b, In a ss -> In b ss ->
+       sort_key inf period now (c_sort cfg) a == sort_key inf period now (c_sort cfg) b -> s_id a = s_id b) ->
+    (c_unint cfg = true -> forall a b, In a ss -> In b ss -> remaining_time a = remaining_time b -> a = b) ->
+    so_result (schedule_with feasible' inf' cfg ss')
+    = res_map (perm_vec 0 p) (so_result (schedule_with feasible inf cfg ss)).
+  Proof.
+    intros Ep En IL Hss Pss NDid Dk Drt. unfold schedule_with. rewrite Ep, En.
+    set (est := c_est cfg). set (un := c_unint cfg).
+    (* preprocessing: relabel, then re-order *)
+    pose proof (run_preprocessing_relabel est un ss Hss) as Rl.
+    assert (ND' : NoDup (map s_id (map (relabel p) ss))) by (rewrite map_map; exact NDid).
+    assert (Drt' : un = true -> forall a b, In a (map (relabel p) ss) -> In b (map (relabel p) ss) ->
+                   remaining_time a = remaining_time b -> a = b).
+    { intros U a b Ia Ib E. apply in_map_iff in Ia. apply in_map_iff in Ib.
+      destruct Ia as [a0 [<- Ia0]]. destruct Ib as [b0 [<- Ib0]].
+      now rewrite (Drt U a0 b0 Ia0 Ib0 E). }
+    destruct (run_preprocessing_perm feasible' inf' period est un (map (relabel p) ss) ss'
+                (Permutation_sym Pss) ND' Drt') as [Pp _].
+    rewrite Rl in Pp. cbn [fst] in Pp.
+    destruct (run_preprocessing feasible inf period est un ss) as [pre store] eqn:RP.
+    destruct (run_preprocessing feasible' inf' period est un ss') as [pre' store'] eqn:RP'.
+    cbn [fst snd so_result] in *.
+    assert (Epre : pre = fst (run_preprocessing feasible inf period est un ss)) by now rewrite RP.
+    assert (SOp : forall s, In s pre -> st_ok s).
+    { rewrite Epre. apply (preproc_stations_ok feasible inf period est un ss). exact Hss. }
+    assert (Pid : Permutation (map ident pre) (map ident (remove_finished_sessions inf period ss))).
+    { rewrite Epre. apply preproc_idents. }
+    assert (Orig : forall a, In a pre -> exists a0, In a0 ss /\ ident a = ident a0).
+    { intros a Ia. apply (in_map ident) in Ia. apply (Permutation_in _ Pid) in Ia. apply in_map_iff in Ia.
+      destruct Ia as [a0 [E I0]]. apply filter_In in I0. exists a0. split; [tauto|now symmetry]. }
+    assert (NDp : NoDup (map s_id pre)).
+    { assert (M : forall l, map s_id l = map (fun x : nat * Z * (Q * Q) * (Z * Z * Z * Z) => snd (fst (fst x))) (map ident l))
+        by (intro l; rewrite map_map; reflexivity).
+      rewrite M. eapply Permutation_NoDup; [apply Permutation_map, Permutation_sym, Pid|].
+      rewrite <- M. unfold remove_finished_sessions. now apply NoDup_map_filter. }
+    assert (Dp : forall a b, In a pre -> In b pre ->
+                 sort_key inf period now (c_sort cfg) a == sort_key inf period now (c_sort cfg) b -> a = b).
+    { intros a b Ia Ib E. destruct (Orig a Ia) as [a0 [Ia0 Ea]]. destruct (Orig b Ib) as [b0 [Ib0 Eb]].
+      rewrite (sort_key_ident _ _ _ Ea), (sort_key_ident _ _ _ Eb) in E.
+      apply (NoDup_map_inj s_id pre); auto.
+      rewrite (ident_id _ _ Ea), (ident_id _ _ Eb). now apply Dk. }
+    destruct (c_rr cfg).
+    - rewrite (round_robin_equivariant (c_inc cfg) (c_sort cfg) pre pre' IL SOp (Permutation_sym Pp) Dp).
+      destruct (round_robin feasible inf period now (c_inc cfg) (c_sort cfg) pre) as [v|e] eqn:R; [|reflexivity].
+      cbn [res_map res_bind]. unfold format_array_schedule.
+      rewrite n_stations', perm_vec_length, (is_perm_length p N P), (round_robin_length _ _ _ _ R), !Nat.eqb_refl. reflexivity.
+    - rewrite (sorting_algorithm_equivariant (c_sort cfg) pre pre' SOp (Permutation_sym Pp) Dp).
+      destruct (sorting_algorithm feasible inf period now (c_sort cfg) pre) as [v|e] eqn:R; [|reflexivity].
+      cbn [res_map res_bind]. unfold format_array_schedule.
+      rewrite n_stations', perm_vec_length, (is_perm_length p N P), (sorting_algorithm_length _ _ _ R), !Nat.eqb_refl. reflexivity.
+  Qed.
 End Equivariance.
 
 (* ============================================================================================
@@ -477,4 +963,64 @@ Proof.
   - intros a b [<-|[<-|[<-|[]]]] [<-|[<-|[<-|[]]]] E; try reflexivity; vm_compute in E; discriminate.
   - eexists. split; [vm_compute; reflexivity|]. split; [vm_compute; reflexivity|].
     cbn [nth]. repeat split; reflexivity.
+Qed.
+
+
+(* ============================================================================================
+   7. instances for the phasor check, and why the remaining-time hypothesis is needed
+   ============================================================================================ *)
+Theorem schedule_equivariant_feasQ inf inf' p cfg ss ss' :
+  is_perm p (n_stations inf) -> infra_shape inf -> infra_perm p inf inf' ->
+  List.length (i_allow inf) = n_stations inf ->
+  (forall s, In s ss -> (s_station s < n_stations inf)%nat) ->
+  Permutation ss' (map (relabel p) ss) ->
+  NoDup (map s_id ss) ->
+  (forall a b, In a ss -> In b ss ->
+     sort_key inf (c_period cfg) (c_now cfg) (c_sort cfg) a == sort_key inf (c_period cfg) (c_now cfg) (c_sort cfg) b ->
+     s_id a = s_id b) ->
+  (c_unint cfg = true -> forall a b, In a ss -> In b ss -> remaining_time a = remaining_time b -> a = b) ->
+  so_result (schedule_with (feasQ inf') inf' cfg ss')
+  = res_map (perm_vec 0 p) (so_result (schedule_with (feasQ inf) inf cfg ss)).
+Proof.
+  intros P Sh IP IL Hss Pss ND Dk Drt.
+  apply (schedule_equivariant (feasQ inf) (feasQ inf') inf inf' p (c_period cfg) (c_now cfg) P IP); auto.
+  intros x L. now apply feasQ_perm.
+Qed.
+
+Theorem round_robin_equivariant_feasQ inf inf' p period now inc k ss ss' :
+  is_perm p (n_stations inf) -> infra_shape inf -> infra_perm p inf inf' ->
+  List.length (i_allow inf) = n_stations inf ->
+  (forall s, In s ss -> (s_station s < n_stations inf)%nat) ->
+  Permutation ss' (map (relabel p) ss) ->
+  (forall a b, In a ss -> In b ss -> sort_key inf period now k a == sort_key inf period now k b -> a = b) ->
+  round_robin (feasQ inf') inf' period now inc k ss'
+  = res_map (perm_vec 0 p) (round_robin (feasQ inf) inf period now inc k ss).
+Proof.
+  intros P Sh IP IL Hss Pss D.
+  apply (round_robin_equivariant (feasQ inf) (feasQ inf') inf inf' p period now P IP); auto.
+  intros x L. now apply feasQ_perm.
+Qed.
+
+(* Two sessions with EQUAL remaining time under uninterrupted charging: apply_minimum_charging_rate serves them in
+   presentation order, the 10 A limit admits only one 8 A minimum pilot, so the session listed first keeps its
+   minimum and the other is dropped.  Priority keys (arrival) are distinct, nothing else changes. *)
+Definition tie_inf : infra :=
+  {| i_A := [[1; 1]]; i_L := [10]; i_cos := [1; 1]; i_sin := [0; 0]; i_volt := [208; 208];
+     i_maxp := [16; 16]; i_minp := [8; 8]; i_allow := [[0; 8; 16]; [0; 8; 16]]; i_cont := [false; false] |}.
+Definition tie_session (st : nat) (id arr : Z) : session :=
+  {| s_station := st; s_id := id; s_req := 30; s_del := 0; s_arr := arr; s_dep := 20%Z; s_edep := 20%Z;
+     s_cur := 5%Z; s_min := [0]; s_max := [16] |}.
+Definition tie_cfg : config :=
+  {| c_rr := false; c_sort := FCFS; c_est := None; c_unint := true; c_inc := 1 # 2; c_period := 5; c_now := 5%Z |}.
+
+Lemma remaining_time_tie_witness :
+  let a := tie_session 0 1 0 in let b := tie_session 1 2 1 in
+  Permutation [a; b] [b; a] /\ NoDup (map s_id [a; b])
+  /\ ~ sort_key tie_inf 5 5%Z FCFS a == sort_key tie_inf 5 5%Z FCFS b
+  /\ remaining_time a = remaining_time b
+  /\ so_result (schedule tie_inf tie_cfg [a; b]) = Ok [8; 0]
+  /\ so_result (schedule tie_inf tie_cfg [b; a]) = Ok [0; 8].
+Proof.
+  cbv zeta. split; [apply perm_swap|]. split; [repeat constructor; simpl; intuition discriminate|].
+  split; [vm_compute; discriminate|]. split; [reflexivity|]. split; vm_compute; reflexivity.
 Qed.
